@@ -71,6 +71,15 @@ def gen(ctx):
             prof = ["narrowing", "special", "mixed", "narrowing", "random"][k]
             sets.append(IO.fmt_dat(IO.gen_dat(infos[a], rnd, prof, maxcells=32 if ctx.quick else 96)))
         data[a] = sets
+    # a few large arrays (block-wise readers: thresholds like 256 or 512 scalars must not matter), every component count
+    big_done = set()
+    for a in sorted(data):
+        inf = infos[a]
+        kind = (getattr(inf, "M", None) or json.dumps(stacks[a][-1]), stacks[a][-1][1] if len(stacks[a][-1]) > 1 else "")
+        if stacks[a][-1][0] != "array" or kind in big_done or len(big_done) >= (8 if ctx.quick else 24):
+            continue
+        big_done.add(kind)
+        data[a].append(IO.fmt_dat(IO.gen_dat(inf, rnd, "narrowing", maxcells=rnd.choice([1200, 1800, 2600]), ext_pool=[5, 6, 7, 9, 11, 13])))
     nvals = 100000 if ctx.quick else 4000000
     vals = [IO.narrow_value(rnd) for _ in range(nvals)]
     wvals = [rnd.choice([rnd.getrandbits(32), rnd.choice(IO.F32_SPECIAL), rnd.getrandbits(23) | (rnd.getrandbits(1) << 31),
